@@ -486,6 +486,22 @@ func exploreNode(c *vx.Ctx, props string, maxDev int, bfsDepth int, st *exploreS
 		for seed := 1; seed <= 24; seed++ {
 			rec(seed, []string{"Restart", "SR"})
 		}
+		// The same for a validator that PROPOSED in the round (the strategy proposes when the round is entered): k more
+		// scripted events, a restart, and the strategy proposing again / answering otherwise.
+		nProp := 0
+		for pos, ev := range script {
+			if ev != "SR" || pos >= 24 || (pos > 0 && script[pos-1] != "TF" && script[pos-1] != "V:c:oh:nil") {
+				continue
+			}
+			for k := 0; k <= 5 && pos+1+k <= len(script); k++ {
+				pre := append([]string{"SR:propose"}, script[pos+1:pos+1+k]...)
+				for _, after := range [][]string{{"Restart", "SR:propose"}, {"Restart", "SR:propose", "SR"}, {"Restart", "SR", "PROP"}, {"Restart", "SR", "SR:nil"}} {
+					js = append(js, vx.Job{Exec: "node", Hist: append(append([]string{}, pre...), after...), Args: map[string]string{"props": props, "mode": "raw", "seed": fmt.Sprint(pos)}})
+					nProp++
+				}
+			}
+		}
+		c.Extra["engine_proposer_restart_executions"] = nProp
 		c.Extra["engine_restart_matrix_executions"] = len(js)
 		runJobs(c, js, st, pl, each)
 	}
